@@ -80,7 +80,8 @@ Record tctx := {
   tc_strategy : strategy;             (* of the current step *)
   tc_stable_rev : string; tc_canary_rev : string;
   tc_last_update : option bool;       (* status lastUpdateTime: None = unset, Some e = set, e = older than the grace period *)
-  tc_key : bool                       (* the revision label key is known (it comes from the workload; empty when the workload is gone) *)
+  tc_key : bool;                      (* the revision label key is known (it comes from the workload; empty when the workload is gone) *)
+  tc_gateway_fails : bool             (* the provider's API call fails in this invocation (fault injection) *)
 }.
 Record tres := {
   tr_ok : bool;                       (* DoTrafficRouting / FinalisingTrafficRouting: done.  others: no retry needed *)
@@ -107,7 +108,8 @@ Definition do_traffic_routing (c : tctx) (n : net) (g : graces) : tres :=
             | None => [WPinStable (tc_stable_rev c)]
             end in
   match w1 ++ w2 with
-  | [] => let '(verified, ws) := ensure_routes (n_route n) (tc_strategy c) in
+  | [] => if tc_gateway_fails c then {| tr_ok := false; tr_err := true; tr_writes := []; tr_graces := g; tr_touched := false |} else
+          let '(verified, ws) := ensure_routes (n_route n) (tc_strategy c) in
           {| tr_ok := verified; tr_err := false; tr_writes := ws; tr_graces := g; tr_touched := false |}
   | ws => {| tr_ok := false; tr_err := false; tr_writes := ws; tr_graces := g; tr_touched := true |}
   end.
@@ -129,6 +131,7 @@ Definition patch_stable_service (c : tctx) (n : net) (g : graces) : tres :=
 
 Definition restore_gateway (c : tctx) (n : net) (g : graces) : tres :=
   if negb (tc_refs c) then tdone true g else
+  if tc_gateway_fails c then {| tr_ok := false; tr_err := true; tr_writes := []; tr_graces := g; tr_touched := false |} else   (* an error keeps the expectations *)
   let '(modified, ws) := finalise_routes (n_route n) in
   let '(retry, g') := with_grace (tc_zero_grace c) GRestoreGateway modified false g in
   {| tr_ok := negb retry; tr_err := false; tr_writes := ws; tr_graces := g'; tr_touched := modified |}.
@@ -141,6 +144,8 @@ Definition remove_canary_service (c : tctx) (n : net) (g : graces) : tres :=
 
 Definition route_all_to_new (c : tctx) (n : net) (g : graces) : tres :=
   if negb (tc_refs c) then tdone true g else
+  (* a failed EnsureRoutes counts as "not verified": the timestamp is touched although nothing was written *)
+  if tc_gateway_fails c then {| tr_ok := false; tr_err := true; tr_writes := []; tr_graces := g; tr_touched := true |} else
   let '(verified, ws) := ensure_routes (n_route n) (weight_only 100) in
   let '(retry, g') := with_grace (tc_zero_grace c) GUpdateRoute (negb verified) false g in
   {| tr_ok := negb retry; tr_err := false; tr_writes := ws; tr_graces := g'; tr_touched := negb verified |}.
